@@ -132,6 +132,10 @@ func buildMetaValsAndMethod(r *http.Request, root string, envVars map[string]str
 	// https://tools.ietf.org/html/rfc3875#section-4.1.18
 	for key, val := range r.Header {
 		header := strings.Replace(strings.ToUpper(key), "-", "_", -1)
+		// a "Proxy" request header must not become HTTP_PROXY (httpoxy, CVE-2016-5385), as in net/http/cgi
+		if header == "PROXY" {
+			continue
+		}
 		metaHeader.Add("HTTP_"+header, strings.Join(val, ", "))
 	}
 
